@@ -50,6 +50,11 @@ class RunRoles:
 
         # -- the part loop ------------------------------------------------
         loops = [n for n in g.nodes if n.kind == 'for' and not n.dup and mentions_self_attr(n.ast.iter, '_parts')]
+        if len(loops) > 1:
+            # several loops over the parts (e.g. one brought in by an expanded helper): the part loop is the one that compiles / executes
+            def executes(lp):
+                return any(isinstance(c, ast.Call) and isinstance(c.func, ast.Name) and c.func.id in ('compile', 'exec', 'eval') for st in lp.ast.body for c in ast.walk(st))
+            loops = [lp for lp in loops if executes(lp)]
         need(len(loops) == 1, 'RUN: expected exactly one loop over self._parts, found %d' % len(loops))
         self.loop = loops[0]
         tgt = self.loop.ast.target
